@@ -215,12 +215,69 @@ def check_wnaf(res, facts):
             (rule.ok if ok and order else rule.bad)(key, "table of odd multiples: push(base) then base += 2*base in the loop", fn.loc)
 
 
+# ---- R-BITS -----------------------------------------------------------------------------------------------
+
+BITS_SITES = {
+    # function-id suffix -> which parameter carries the scalar / exponent
+    "ark_ec::scalar_mul::sw_double_and_add_affine": 2,
+    "ark_ec::scalar_mul::sw_double_and_add_projective": 2,
+    "ark_ec::models::twisted_edwards::TECurveConfig::mul_projective": 2,
+    "ark_ec::models::twisted_edwards::TECurveConfig::mul_affine": 2,
+    "ark_ff::fields::Field::pow": 2,
+    "ark_ff::fields::Field::pow_with_table": 2,
+    "ark_ff::fields::cyclotomic::CyclotomicMultSubgroup::cyclotomic_exp_in_place": 2,
+}
+
+
+def check_bits(res, facts):
+    """the bits scanned by the double-and-add / square-and-multiply loops are the caller's scalar, untransformed: the
+    argument of the bit iterator is the scalar parameter itself (through as_ref / borrow only)"""
+    from rules.c07 import E, show
+    rule = res.rule("R-BITS", "double-and-add / square-and-multiply loops scan the bits of the caller's scalar itself (no intermediate trimming / re-slicing)", 7)
+    seen = set()
+    for f in facts.fns(unit="ws"):
+        if f.kind == "Closure" or f.id not in BITS_SITES:
+            continue
+        key = "%s|%s" % (f.crate, f.id)
+        arg = BITS_SITES[f.id]
+        its = [t for _, t in f.calls() if "BitIterator" in (t["f"].get("path") or "") and t["f"].get("name") in ("new", "without_leading_zeros", "without_trailing_zeros")]
+        if len(its) != 1:
+            rule.bad(key, "expected one bit iterator over the scalar, found %d" % len(its), f.loc)
+            continue
+        seen.add(f.id)
+        src = E(f, its[0]["args"][0])
+        if src == ("arg", arg, ()):
+            rule.ok(key, "%s over the scalar parameter" % its[0]["f"].get("name"), f.loc)
+        elif isinstance(src, tuple) and src[0] == "call" and len(src[2]) == 1 and src[2][0] == ("arg", arg, ()):
+            # a helper in between: accepted only if it removes zero limbs from the most significant end
+            helper = [h for h in facts.fns(unit="ws", crate=f.crate) if h.kind != "Closure" and h.name == src[1]]
+            verdict = None
+            if len(helper) == 1:
+                h = helper[0]
+                r = E(h, {"c": 0})
+                txt = show(r)
+                if isinstance(r, tuple) and r[0] == "call" and r[1] == "index" and r[2][0] == ("arg", 1, ()) and "RangeTo" in txt and "take_while" in txt and "len(arg1)" in txt:
+                    verdict = "ok" if "rev(" in txt else "low"
+            if verdict == "ok":
+                rule.ok(key, "scalar with most-significant zero limbs removed by %s" % src[1], f.loc)
+            elif verdict == "low":
+                rule.bad(key, "%s counts zero limbs from the least significant end (no .rev()) and cuts that many limbs off the most significant end: for a scalar with low zero limbs the high limbs are dropped and a different multiple is computed" % src[1], f.loc)
+            else:
+                rule.undecided(key, "the bit iterator runs over %s, a transformation of the scalar this rule cannot decide" % show(src), f.loc)
+        else:
+            rule.undecided(key, "the bit iterator runs over %s instead of the scalar parameter" % show(src), f.loc)
+    for k in BITS_SITES:
+        if k not in seen:
+            rule.bad("anchor|%s" % k, "anchor missing")
+
+
 def run(ctx, res):
     facts = ctx.facts(UNITS)
     res.analysed = facts.stats()
     check_daa(res, facts)
     check_rawscalar(res, facts)
     check_wnaf(res, facts)
+    check_bits(res, facts)
     return {
         "level": "other",
         "explanation": "Loop-recurrence typing and dataflow rules over the MIR of ark-ec / ark-ff scalar multiplication and exponentiation loops and of every curve crate's overrides of the raw-limb entry points; GLV constants and lattice bases are decided exhaustively under C16. Does NOT decide equality of any path's result with k*P, correctness of wNAF digits (C15) or table sizing at run time.",
